@@ -28,6 +28,11 @@ CLAIMED["C18"] = ("§3 C18",
     "Decides the controller's typestate relation (all Task.state assignments with their source-state guards lie within Waiting->Ready->Running->Terminated / Waiting->Terminated; received tasks are Running), that Ready requires isReady() which requires done() of every dependency and done() holds exactly for Terminated, that results are folded and the configuration recomputed before markReady and a failure returns without releasing dependants, that the task goroutine starts after updateTaskValue, writes only Task.err and always ends with the send on taskCh, and that checkCycle guards every initTasks path. It does not decide dependency discovery or equality of the final configuration.",
     "dep.Visit and Runner implementations are not analysed; only package tools/flow")
 
+CLAIMED["C08"] = ("§3 C08",
+    "exhaustiveness of type-switch dispatchers over cue/ast interfaces (go/types implements-relation), field coverage at package and at dispatcher-case granularity with flow-sensitive 'strong use', acquire/release pairing of parser comment states, CFG gates on cmd/cue fmt",
+    "Decides for both formatters (cue/format v1, internal/pretty v2), ast.Walk, astutil.Apply and the parser: every dispatcher covers every implementor of the switched interface; every child and payload field of every cue/ast node type is used onward (emitted/visited/built) by the case that handles the node; every openComments is closed on every path; format.Source prints what it parsed with comments; cue fmt writes only after success and only if bytes changed. It does not decide idempotence nor that the emitted layout re-parses to the same tree.",
+    "whitespace/comma/layout decisions are value-level; resolution metadata fields are excepted by name")
+
 # properties not claimed (yet) -> reason
 NOT_APPLICABLE = {
     "C03": "value-level: the content is the cell values of the bound-simplification decision table over numbers; no shape rule separates a correct table from an off-by-one (DESIGN.md §4)",
